@@ -17,8 +17,6 @@ Definition extract (l : loc) (s : dna) : dna :=
   if lstrand l =? -1 then rc sub else sub.
 
 (* result of spec.localized(...) *)
-Inductive lres (X : Type) := LNone | LSome (x : X) | LError.
-Arguments LNone {X}. Arguments LSome {X} x. Arguments LError {X}.
 
 (* start-codon policy of EnforceTranslation *)
 Inductive start_policy := StartNone | StartKeep | StartCodons (cs : list dna).
